@@ -54,6 +54,14 @@ def keysDistinctB (descs : List Desc) : Bool := decide (((graphInput descs).map 
 /-- constructor id 0 (recorded as the producer of registered instance values) is no registration's constructor -/
 def ctorZeroB (descs : List Desc) : Bool := descs.all fun d => !(d.ctor == 0)
 
+/-- descriptors of one registration (one constructor) declare the same dependencies -/
+def sibDepsB (descs : List Desc) : Bool :=
+  descs.all fun d => descs.all fun d' => !(d'.ctor == d.ctor) || d'.deps == d.deps
+
+/-- a group dependency carries no key -/
+def depKeysB (descs : List Desc) : Bool :=
+  descs.all fun d => d.deps.all fun dep => dep.grp == 0 || dep.key == 0
+
 /-- names of the hypotheses that fail on `descs` (empty = all hold) -/
 def failedHyps (descs : List Desc) : List String :=
   (if sibLifeB descs then [] else ["sibLife"]) ++ (if uniqueIdsB descs then [] else ["uniqueIds"]) ++
@@ -61,6 +69,7 @@ def failedHyps (descs : List Desc) : List String :=
   (if voidAloneB descs then [] else ["voidAlone"]) ++ (if sibCtorB descs then [] else ["sibCtor"]) ++
   (if identUniqueB descs then [] else ["identUnique"]) ++ (if instSibsB descs then [] else ["instSibs"]) ++
   (if instSingletonB descs then [] else ["instSingleton"]) ++ (if instDistinctB descs then [] else ["instDistinct"]) ++
-  (if keysDistinctB descs then [] else ["keysDistinct"]) ++ (if ctorZeroB descs then [] else ["ctorZero"])
+  (if keysDistinctB descs then [] else ["keysDistinct"]) ++ (if ctorZeroB descs then [] else ["ctorZero"]) ++
+  (if sibDepsB descs then [] else ["sibDeps"]) ++ (if depKeysB descs then [] else ["depKeys"])
 
 end Godi.Container
